@@ -384,3 +384,53 @@ func Reachable(cg *callgraph.Graph, roots ...*ssa.Function) map[*ssa.Function]bo
 	}
 	return out
 }
+
+// SliceReaches reports whether the backward slice of `from` contains `target`.
+func SliceReaches(from, target ssa.Value, depth int) bool {
+	seen := map[ssa.Value]bool{}
+	traceInto(newSources(), from, depth, seen)
+	return seen[target]
+}
+
+// LiteralFields returns, for a struct allocated by a composite literal
+// (Alloc + field stores), the value stored into each field (by name).  A field
+// stored more than once gets all values.
+func LiteralFields(al *ssa.Alloc) map[string][]ssa.Value {
+	out := map[string][]ssa.Value{}
+	refs := al.Referrers()
+	if refs == nil {
+		return out
+	}
+	for _, r := range *refs {
+		fa, ok := r.(*ssa.FieldAddr)
+		if !ok {
+			continue
+		}
+		f := FieldOfAddr(fa)
+		for _, rr := range *fa.Referrers() {
+			if st, ok := rr.(*ssa.Store); ok && st.Addr == fa {
+				out[f.Name()] = append(out[f.Name()], st.Val)
+			}
+		}
+	}
+	return out
+}
+
+// AllocsOf finds the allocations of the named struct type in fn.
+func AllocsOf(fn *ssa.Function, named *types.Named) []*ssa.Alloc {
+	var out []*ssa.Alloc
+	Instrs(fn, func(in ssa.Instruction) {
+		al, ok := in.(*ssa.Alloc)
+		if !ok {
+			return
+		}
+		pt, ok := al.Type().(*types.Pointer)
+		if !ok {
+			return
+		}
+		if n, ok := pt.Elem().(*types.Named); ok && n.Obj() == named.Obj() {
+			out = append(out, al)
+		}
+	})
+	return out
+}
